@@ -177,9 +177,14 @@ func (k Keeper) cleanupTimedOutBatches(ctx sdk.Context) {
 
 func (k Keeper) cleanupTimeOutBridgeCall(ctx sdk.Context) {
 	externalBlockHeight := k.GetLastObservedBlockHeight(ctx).ExternalBlockHeight
+	resultObserved := k.pendingBridgeCallResults(ctx)
 	k.IterateOutgoingBridgeCalls(ctx, func(data *types.OutgoingBridgeCall) bool {
 		if data.Timeout > externalBlockHeight {
 			return true
+		}
+		if resultObserved[data.Nonce] {
+			// the external chain has reported what happened to this call: its result settles it, not the timeout
+			return false
 		}
 		// 1. handler bridge call refund
 		k.HandleOutgoingBridgeCallRefund(ctx, data)
